@@ -17,7 +17,7 @@ from ..order import Interp
 from ..algebra_lin import linear_form
 
 COL = "typhon/collocations/collocator.py"
-EXPECT = {"C04.empty": 4, "C04.temporal": 6, "C04.window": 4, "C04.nan": 7, "C04.swap": 4, "C04.offsets": 7,
+EXPECT = {"C04.thresholds": 3, "C04.empty": 4, "C04.temporal": 6, "C04.window": 4, "C04.nan": 7, "C04.swap": 4, "C04.offsets": 7,
           "C04.cache": 4, "C04.interval": 1, "C04.grid": 1}
 
 
@@ -236,7 +236,8 @@ def rule_window(ctx):
     flow = Flow(f)
     # the selections: each dataset by its own time, inclusive at both ends; their bounds are the window
     def unwrap(e):
-        while isinstance(e, ast.Call) and (dotted(e.func) or "").split(".")[-1] in ("datetime64", "Timestamp", "to_datetime", "to_datetime64") and len(e.args) == 1:
+        # (np.datetime64(...) is kept: whether it is applied to a pandas.Timestamp is decided below, on the resolved bound)
+        while isinstance(e, ast.Call) and (dotted(e.func) or "").split(".")[-1] in ("Timestamp", "to_datetime", "to_datetime64") and len(e.args) == 1:
             e = e.args[0]
         return e
     sels = []
@@ -300,6 +301,44 @@ def rule_window(ctx):
                 env[str(norm(cur))] = sym
         return env
     from ..core import clone as _clone
+    # the conversion of the bounds to numpy: np.datetime64(<pandas.Timestamp>) floors the bound to microseconds - a point up to 999 ns
+    # before the end of the window is cut off.  Timestamps must go through .to_datetime64() / .to_numpy(); np.datetime64() is for the
+    # python datetimes (start / end) only.
+    floored = []
+
+    def may_be_timestamp(e_):
+        return any(isinstance(c_, ast.Call) and (dotted(c_.func) or "").split(".")[-1] == "Timestamp" for c_ in ast.walk(e_))
+
+    class _Conv(ast.NodeTransformer):
+        def __init__(self):
+            self.guarded = 0
+
+        def visit_IfExp(self, n_):
+            t_ = str(norm(n_.test)).replace(" ", "")
+            if t_.startswith("isinstance(") and t_.endswith(("pd.Timestamp)", "pandas.Timestamp)")):
+                body = self.visit(n_.body)
+                self.guarded += 1
+                orelse = self.visit(n_.orelse)       # reached only by what is NOT a Timestamp
+                self.guarded -= 1
+                if str(norm(body)) == str(norm(orelse)):
+                    return body
+                raise AnalysisError("_get_common_time_period: the two conversions of a window bound differ: %s / %s" % (norm(body)[:50], norm(orelse)[:50]))
+            return self.generic_visit(n_)
+
+        def visit_Call(self, n_):
+            if isinstance(n_.func, ast.Attribute) and n_.func.attr in ("to_datetime64", "to_numpy") and not n_.args:
+                return self.visit(n_.func.value)
+            if (dotted(n_.func) or "") in ("np.datetime64", "numpy.datetime64") and len(n_.args) == 1:
+                if may_be_timestamp(n_.args[0]) and not self.guarded:
+                    floored.append(str(norm(n_))[:70])
+                return self.visit(n_.args[0])
+            return self.generic_visit(n_)
+    cs_e = ast.fix_missing_locations(_Conv().visit(_clone(cs_e)))
+    ce_e = ast.fix_missing_locations(_Conv().visit(_clone(ce_e)))
+    ctx.ob("Collocator._get_common_time_period.nanoseconds", not floored, "bounds converted with np.datetime64(<Timestamp>): %s" % (floored or "none"),
+           "a pandas.Timestamp bound becomes a numpy time with .to_datetime64() (np.datetime64(Timestamp) goes through datetime and loses the nanoseconds): "
+           "the pair whose later point lies within 1 us before the window end is not cut off", node=any_st, func=f,
+           witness=None if not floored else {"t1": "00:01:40.000000500", "t2": "00:01:50.000000100", "max_interval": "10 s", "|dt|": "9.9999996 s", "reported": False})
     cs_e, ce_e = _clone(cs_e), _clone(ce_e)        # (clone sets the parent links of the resolved trees)
     symenv = dict(symbols(cs_e), **symbols(ce_e))
     from ..order import Interp
@@ -815,6 +854,81 @@ def rule_grid(ctx):
            witness=None if drops else {"primary": "time(scnline), lat/lon(scnline, scnpos)", "collocate": "ValueError as soon as one pair exists"})
 
 
+def rule_thresholds(ctx):
+    """Thresholds as numbers: the number is the count of seconds, fraction included.  A spatial-only search (max_interval=None) still
+    honours [start, end] and answers "no pair" with None."""
+    ctx.rule("C04.thresholds", "T5", "a numeric max_interval keeps its fraction; the spatial-only mode keeps the period and the empty answer")
+    rule_fraction(ctx)
+    rule_spatial_only(ctx)
+
+
+def rule_fraction(ctx, rule=None):
+    if rule is not None:
+        ctx.rule(rule, "T5", "a numeric max_interval is that number of seconds, fraction included")
+    tu = "typhon/utils/timeutils.py"
+    f = ctx.func(tu, "to_timedelta")
+    obj = f.params[0]
+    flow = Flow(f)
+    # the value handed to timedelta(**{numbers_as: V}) on the path of a number
+    tds = [c for c in calls_in(f.node, "timedelta") if any(k.arg is None and isinstance(k.value, ast.Dict) and len(k.value.values) == 1 for k in c.keywords)]
+    if len(tds) != 1:
+        raise AnalysisError("to_timedelta: the construction timedelta(**{numbers_as: value}) was not found")
+    v = [k.value.values[0] for k in tds[0].keywords if k.arg is None][0]
+    v = flow.resolve(v, at=tds[0], depth=2, stop=(obj,))
+    outcomes = {}
+    for integral in (True, False):
+        asm = {"isinstance(%s, Integral)" % obj: integral, "isinstance(%s, (int, np.integer))" % obj: integral, "isinstance(%s, int)" % obj: integral,
+               "float(%s).is_integer()" % obj: integral}
+        e = flow.resolve_under(v, asm, at=tds[0], stop=(obj,))
+        outcomes[integral] = str(norm(e)).replace(" ", "")
+    keeps = outcomes[False] in ("float(%s)" % obj, obj)
+    truncates = outcomes[False] in ("int(%s)" % obj, "int(float(%s))" % obj, "%s//1" % obj, "math.floor(%s)" % obj, "round(%s)" % obj, "int(round(%s))" % obj)
+    if not keeps and not truncates:
+        raise AnalysisError("to_timedelta: value %s handed to timedelta for a non-integral number not understood" % outcomes[False])
+    ctx.ob("to_timedelta.fraction", keeps, "non-integral number -> timedelta(**{numbers_as: %s}); integral -> %s" % (outcomes[False], outcomes[True]),
+           "float(obj) (or obj itself): max_interval=10.5 means 10.5 seconds - int() made it 10 and lost the pairs with 10 s <= |dt| < 10.5 s that '10.5 s' reports",
+           node=tds[0], func=f, witness=None if keeps else {"max_interval": 10.5, "|dt|": "10.0 s", "reported": False, "with '10.5 s'": True})
+
+
+def rule_spatial_only(ctx):
+    # no_pairs: the rows are used as index arrays
+    g = ctx.func(COL, "Collocator.no_pairs")
+    rets = [r for r in walk_no_nested(g.node) if isinstance(r, ast.Return) and r.value is not None]
+    if len(rets) != 1 or not isinstance(rets[0].value, ast.Call):
+        raise AnalysisError("no_pairs: single returned array not found")
+    c = rets[0].value
+    kw = {k.arg: str(norm(k.value)) for k in c.keywords}
+    d = (dotted(c.func) or "").split(".")[-1]
+    dt = kw.get("dtype", str(norm(c.args[1])) if d in ("array", "asarray", "empty", "zeros") and len(c.args) > 1 else None)
+    if d not in ("array", "asarray", "empty", "zeros"):
+        raise AnalysisError("no_pairs: %s not understood" % norm(c)[:60])
+    int_ok = dt in ("int", "np.int64", "np.intp", "np.int_", "'int'", "'int64'", "np.int32", "'intp'")
+    ctx.ob("Collocator.no_pairs", int_ok, "%s" % norm(c), "an INTEGER 2 x 0 array: its rows index the time arrays of a search without match (a float array raised IndexError "
+           "where None is promised)", node=rets[0], func=g, witness=None if int_ok else {"collocate": "max_interval=None, no point within max_distance", "raises": "IndexError"})
+    # _prepare_data: the common period is selected whenever something can limit it - an interval OR a period given by the user
+    h = ctx.func(COL, "Collocator._prepare_data")
+    cc = calls_in(h.node, "_get_common_time_period")
+    if len(cc) != 1:
+        raise AnalysisError("_prepare_data: the call of _get_common_time_period was not found")
+    from ..flow import guard_chain
+    from ..order import Interp
+    gc = guard_chain(enclosing_stmt(cc[0]), implicit=True)
+    mi_, st_, en_ = "max_interval", "start", "end"
+    A, B, C_ = "%s is not None" % mi_, "%s > datetime.min" % st_, "%s < datetime.max" % en_
+    wrong = None
+    for a, b, c3 in itertools.product((False, True), repeat=3):
+        env = {A: a, "%s is None" % mi_: not a, B: b, "datetime.min < %s" % st_: b, "%s != datetime.min" % st_: b, C_: c3, "datetime.max > %s" % en_: c3, "%s != datetime.max" % en_: c3,
+               "%s == datetime.min" % st_: not b, "%s == datetime.max" % en_: not c3}
+        try:
+            reached = all(bool(Interp(env).ev(t_)) == pol for t_, pol in gc)
+        except AnalysisError as e_:
+            raise AnalysisError("_prepare_data: condition of the period selection outside the model: %s" % e_)
+        if (a or b or c3) and not reached and wrong is None:
+            wrong = {"max_interval given": a, "start given": b, "end given": c3, "period selected": reached}
+    ctx.ob("Collocator._prepare_data.period", wrong is None, "period selected under: %s" % ([("%s" if pol else "not (%s)") % norm(t_) for t_, pol in gc] or "always"),
+           "whenever max_interval, start or end is given: a spatial-only search (max_interval=None) is limited to [start, end] as well", node=cc[0], func=h, witness=wrong)
+
+
 def run(ctx):
-    for r in (rule_empty, rule_temporal, rule_window, rule_nan, rule_swap, rule_offsets, rule_cache, rule_interval, rule_reuse, rule_grid):
+    for r in (rule_empty, rule_temporal, rule_window, rule_nan, rule_swap, rule_offsets, rule_cache, rule_interval, rule_reuse, rule_grid, rule_thresholds):
         ctx.attempt(r, ctx)
